@@ -50,3 +50,33 @@ def listing_for(case, sections=None):
         path = sc.write("blob.bin", expand(case["chunks"]))
         rc, out, err = disassemble_blob(path, case["mode"], layout=case.get("layout", "default"))
     return rc, out, path
+
+
+def contain(sc, path, case):
+    """The same object in another container objdump accepts: COFF (.obj, what objcopy / MSVC-style toolchains emit), a regular or thin
+    `ar` archive (deterministic mode: no timestamps).  -> (path, tag); the ELF itself if the tool refuses the object."""
+    import os
+    import subprocess
+
+    kind = case.get("container", "elf")
+    if kind == "elf":
+        return path, "container=elf"
+    d = os.path.dirname(path)
+    if kind in ("coff", "bigobj"):
+        target = ("pe-bigobj-x86-64" if kind == "bigobj" else "pe-x86-64") if case["obj"]["bits"] == 64 else "pe-i386"
+        out = os.path.join(d, "contained.obj")
+        r = subprocess.run(["objcopy", "-O", target, path, out], capture_output=True, text=True, cwd=d)
+    else:
+        out = os.path.join(d, "contained.a")
+        if os.path.exists(out):
+            os.unlink(out)
+        members = [os.path.basename(path)]
+        if kind == "ar-two":
+            second = "second_" + os.path.basename(path)
+            with open(path, "rb") as f, open(os.path.join(d, second), "wb") as g:
+                g.write(f.read())
+            members.append(second)
+        r = subprocess.run(["ar", "rcTD" if kind == "thin-ar" else "rcD", "contained.a", *members], capture_output=True, text=True, cwd=d)
+    if r.returncode != 0 or not os.path.exists(out):
+        return path, "container=elf-after-" + kind + "-refused"
+    return out, "container=" + kind
